@@ -24,6 +24,7 @@ import (
 	"mosn.io/mosn/pkg/network"
 	mosnhttp "mosn.io/mosn/pkg/protocol/http"
 	shttp "mosn.io/mosn/pkg/stream/http"
+	sh2 "mosn.io/mosn/pkg/stream/http2"
 	sx "mosn.io/mosn/pkg/stream/xprotocol"
 	"mosn.io/mosn/pkg/types"
 	"mosn.io/mosn/pkg/upstream/cluster"
@@ -36,11 +37,15 @@ type poolKind int
 const (
 	kHTTP1 poolKind = iota
 	kPingPong
+	kH2
 )
 
 func (k poolKind) String() string {
-	if k == kHTTP1 {
+	switch k {
+	case kHTTP1:
 		return "http1"
+	case kH2:
+		return "h2"
 	}
 	return "pingpong"
 }
@@ -87,7 +92,7 @@ func newUpstream(kind poolKind) (*upstream, error) {
 
 // Listeners are reused across histories (a fresh listener per history exhausts the ephemeral ports in the thorough
 // tier); the connections of a finished history are aborted (SO_LINGER 0: no TIME_WAIT) and forgotten.
-var upFree = map[poolKind]chan *upstream{kHTTP1: make(chan *upstream, 64), kPingPong: make(chan *upstream, 64)}
+var upFree = map[poolKind]chan *upstream{kHTTP1: make(chan *upstream, 64), kPingPong: make(chan *upstream, 64), kH2: make(chan *upstream, 64)}
 
 func getUpstream(kind poolKind) (*upstream, error) {
 	select {
@@ -137,9 +142,12 @@ func (u *upstream) acceptLoop() {
 			c.Close()
 			continue
 		}
-		if u.kind == kHTTP1 {
+		switch u.kind {
+		case kHTTP1:
 			go uc.readHTTP()
-		} else {
+		case kH2:
+			go uc.readH2()
+		default:
 			go uc.readPP()
 		}
 	}
@@ -201,6 +209,49 @@ func (uc *upConn) readHTTP() {
 			tok, _ = strconv.Atoi(strings.TrimSpace(line[i+1:]))
 		}
 	}
+}
+
+// minimal HTTP/2 peer: skips the client preface, then reads frames; HEADERS = a request, PING ack = barrier
+func (uc *upConn) readH2() {
+	fail := func() {
+		uc.mu.Lock()
+		uc.peerClosed = true
+		uc.mu.Unlock()
+	}
+	pre := make([]byte, 24)
+	if _, err := io.ReadFull(uc.c, pre); err != nil {
+		fail()
+		return
+	}
+	hdr := make([]byte, 9)
+	for {
+		if _, err := io.ReadFull(uc.c, hdr); err != nil {
+			fail()
+			return
+		}
+		n := int(hdr[0])<<16 | int(hdr[1])<<8 | int(hdr[2])
+		pl := make([]byte, n)
+		if _, err := io.ReadFull(uc.c, pl); err != nil {
+			fail()
+			return
+		}
+		switch hdr[3] {
+		case 0x1: // HEADERS
+			uc.noteRequest(int(binary.BigEndian.Uint32(hdr[5:]) & 0x7fffffff))
+		case 0x6: // PING
+			if hdr[4]&1 == 1 {
+				uc.mu.Lock()
+				uc.hbAcks++
+				uc.mu.Unlock()
+			}
+		}
+	}
+}
+
+func h2Frame(typ, flags byte, stream uint32, payload []byte) []byte {
+	b := []byte{byte(len(payload) >> 16), byte(len(payload) >> 8), byte(len(payload)), typ, flags, 0, 0, 0, 0}
+	binary.BigEndian.PutUint32(b[5:], stream)
+	return append(b, payload...)
 }
 
 // ping-pong test codec frame: magic(1) type(1) id(8) tok(4)
@@ -476,6 +527,7 @@ type world struct {
 	leases   []*lease
 	ext      int
 	failedDials int
+	mu2         sync.Mutex // leases appended by concurrent NewStream calls (h2 pair)
 	noHeldWait  bool // the caller waits for the streams of a closed connection itself
 	noModel     bool
 	raced       int
@@ -505,9 +557,12 @@ func newWorld(kind poolKind, maxConn, maxReq uint64) (*world, error) {
 	h := &vhost{Host: cluster.NewSimpleHost(cl.Hosts[0], info)}
 	w := &world{kind: kind, maxConn: maxConn, maxReq: maxReq, up: up, host: h, rm: info.ResourceManager(), byConnID: map[uint64]*cliRec{}}
 	ctx := context.Background()
-	if kind == kHTTP1 {
+	switch kind {
+	case kHTTP1:
 		w.pool = shttp.NewConnPool(ctx, h)
-	} else {
+	case kH2:
+		w.pool = sh2.NewConnPool(ctx, h)
+	default:
 		w.pool = sx.NewConnPool(ctx, ppCodecInst, h)
 	}
 	return w, nil
